@@ -38,9 +38,11 @@ impl StateMachine<'_> {
 // like these:
 // " src/delta.rs  | 14 ++++++++++----"
 // " src/config.rs |  2 ++"
+// (The path starts right after the single leading space: an indented line of a commit message
+// that happens to contain "| 12 ..." is not a diffstat line.)
 lazy_static! {
     static ref DIFF_STAT_LINE_REGEX: Regex =
-        Regex::new(r" ([^\| ][^\|]+[^\| ]) +(\| +[0-9]+ .+)").unwrap();
+        Regex::new(r"^ ([^\| ][^\|]+[^\| ]) +(\| +[0-9]+ .+)").unwrap();
 }
 
 pub fn relativize_path_in_diff_stat_line(
